@@ -1247,6 +1247,10 @@ impl<'ctx> ByteCompiler<'ctx> {
         &mut self,
         condition: Option<&Expression>,
     ) -> Option<HoistedOperand> {
+        #[cfg(boa_verif)]
+        if crate::verif::NO_LOOP_HOIST.with(std::cell::Cell::get) {
+            return None;
+        }
         let condition = condition?;
         let Expression::Binary(binary) = condition else {
             return None;
@@ -1323,6 +1327,11 @@ impl<'ctx> ByteCompiler<'ctx> {
         hoisted: Option<&HoistedOperand>,
     ) -> Option<Label> {
         use crate::vm::opcode::BytecodeEmitter;
+
+        #[cfg(boa_verif)]
+        if crate::verif::NO_FUSED_BRANCH.with(std::cell::Cell::get) {
+            return None;
+        }
 
         let emit_fn: fn(&mut BytecodeEmitter, Address, RegisterOperand, RegisterOperand) = match op
         {
@@ -2275,6 +2284,10 @@ impl<'ctx> ByteCompiler<'ctx> {
                                     .emit_move(cache_reg.variable(), value.variable());
                                 self.const_binding_cache
                                     .insert(binding.locator(), cache_reg.index());
+                                #[cfg(boa_verif)]
+                                if crate::verif::NO_CONST_CACHE.with(std::cell::Cell::get) {
+                                    self.const_binding_cache.remove(&binding.locator());
+                                }
                                 self.register_allocator.dealloc(value);
                             }
                         }
